@@ -208,6 +208,22 @@ def check(rep):
             elif res[0] == "object":
                 tags = set()
                 rep.fail("oracle", f"{op.__name__}: {broken!r} is answered with an object ({res[1]}) instead of an error", ident, expected="an error", observed=res[1], tags=tags)
+    # a negative weight on ANY descriptor of a token outside a stochastic object (stand-alone token, prefix, connector, suffix): not generable
+    NEG = ["[$]CC[$|-0.5|]", "[$|-0.5|]CC[$]", "[<]CC(C)[>|-1|]", "[$]CC([$|-2|])[$]", "[$]CC([$])[$|-2|]", "[$]CC([$|-1|])[$|3|]", "CC[$|-1|]",
+           "OC{[>] [<]CC[>]; [<][H] [<]}|uniform(30,60)|[<]COOC[>|-0.5|]{[>] [<]COC[>] [<]}|uniform(30,60)|[<]F",
+           "OC{[>] [<]CC[>]; [<][H] [<]}|uniform(30,60)|[<|-0.5|]COOC[>]{[>] [<]COC[>] [<]}|uniform(30,60)|[<]F",
+           "C[$]{[$][$]CC[$][$]}|uniform(30,60)|[$]CO[$|-3|]{[$][$]CN[$][$]}|uniform(30,60)|[$]F",
+           "CC[>|-1|]{[>][<]CC[>][<]}|uniform(30,60)|[<]F", "CC[>]{[>][<]CC[>][<]}|uniform(30,60)|[<|-1|]F",
+           "N[<]{[<][>]CC([<|-2|])[<][>]}|uniform(30,60)|[>]O"]
+    for text in NEG:
+        evaluations += 1
+        res = run_impl(text, "not_generable")
+        ophist["neg_weight_token:" + res[0]] = ophist.get("neg_weight_token:" + res[0], 0) + 1
+        if res[0] == "timeout":
+            rep.fail("oracle", f"negative weight: {text!r} does not terminate", {"text": text, "operator": "neg_weight_token"}, expected="an error", observed="timeout")
+        elif res[0] == "object":
+            rep.fail("oracle", f"negative weight on a token descriptor: {text!r} is answered with an object ({res[1]}) instead of an error", {"text": text, "operator": "neg_weight_token"},
+                     expected="not generable / an error", observed=res[1])
     # a left terminal carrying a list of the wrong length
     for text in ["C{[$|1 2 3 4 5|][$]CC[$][$]}|gauss(30,1)|C", "C{[>|1 1 1|][<]CC[>][<]}|gauss(30,1)|C"]:
         evaluations += 1
@@ -259,7 +275,13 @@ def check(rep):
                 k = rnd.randrange(len(s))
                 toks.append(s[:k] + rnd.choice("()[]$.|") + s[k:])
                 toks.append(s[:k] + s[k + 1:])
-    toks = list(dict.fromkeys(toks))[: (800 if quick else 20000)]
+    # negative weights on each descriptor in turn (the generable flag of a token is part of the comparison)
+    for s in list(dict.fromkeys(toks))[:120]:
+        ds = list(re.finditer(r"\[[$<>]\d*\]", s))
+        for m in ds[:3]:
+            toks.append(s[: m.end() - 1] + "|-2|]" + s[m.end():])
+    toks = [t for t in NEG if "{" not in t] + toks
+    toks = list(dict.fromkeys(toks))[: (1100 if quick else 20000)]
     for t, o in zip(toks, fw.run_driver([layers.token_line(t) for t in toks])):
         evaluations += 1
         d = layers.token_diff(layers.parse_model_token(o), layers.impl_token(t))
